@@ -236,21 +236,33 @@ def _counter(spec):
             return None
         return atom
 
-    def comparison(e, allow_read):
+    NEG = {'<': '>=', '>': '<=', '<=': '>', '>=': '<', '==': '!=', '!=': '=='}
+
+    def comparison(e, allow_read, neg=False):
         e = strip(e)
         if e.get('kind') != 'BinaryOperator' or e.get('opcode') not in CMPOPS:
             raise Untranslatable('CounterRemover: the test is not a comparison')
+        if neg:
+            # the negation of a comparison of integers is the opposite comparison (exact on Z)
+            if e.get('opcode') not in NEG:
+                raise Untranslatable('CounterRemover: negated %s' % e.get('opcode'))
+            e = dict(e, opcode=NEG[e.get('opcode')])
         return Tr(make_atom(allow_read), 'Z').expr(e)
     c = strip(cond)
-    if c.get('kind') == 'BinaryOperator' and c.get('opcode') == '||':
+    neg = False
+    while c.get('kind') == 'UnaryOperator' and c.get('opcode') == '!':
+        neg = not neg
+        c = strip(kids(c)[0])
+    if c.get('kind') == 'BinaryOperator' and c.get('opcode') == ('&&' if neg else '||'):
+        # `!(a && b)` is `!a || !b` with the same short circuit: b is evaluated exactly when a holds
         # `guard || test`: the guard reads data->triggerCount without changing it; when it holds the
         # decrement is not executed (short circuit)
         lhs, rhs = kids(c)
-        guard = comparison(lhs, True)
-        term = comparison(rhs, False)
+        guard = comparison(lhs, True, neg)
+        term = comparison(rhs, False, neg)
         step = '(let n_before := n in if %s then (n_before, true) else let n_after := dec n in (n_after, %s))' % (guard, term)
     else:
-        term = comparison(c, False)
+        term = comparison(c, False, neg)
         step = '(let n_before := n in let n_after := dec n in (n_after, %s))' % term
     if len(seen) != 1:
         raise Untranslatable('CounterRemover: expected exactly one decrement of data->triggerCount in the test')
